@@ -3,7 +3,7 @@ PROP = "C05"
 
 
 def run(tier):
-    ck = simprops.run_prop(PROP, tier, n_quick=6000, n_thorough=200000, e2e=(500, 12000), all_schedules=(600, 20000))
+    ck = simprops.run_prop(PROP, tier, n_quick=6000, n_thorough=80000, e2e=(500, 5000), all_schedules=(600, 10000))
     return ck.finish()
 
 
